@@ -294,6 +294,9 @@ func TravelNew(id ID) *Travel {
 
 // Equals verifies if our receiver Object is equals with the "with" Object
 func (i IntransitiveActivity) Equals(with Item) bool {
+	if IsNil(with) {
+		return false
+	}
 	result := true
 	err := OnIntransitiveActivity(with, func(w *IntransitiveActivity) error {
 		_ = OnObject(i, func(oa *Object) error {
